@@ -54,7 +54,6 @@ func getResponseHeader(src *fasthttp.ResponseHeader) (dest http.Header) {
 func (trans *Transport) Transport(ctx context.Context, request []byte) (response []byte, err error) {
 	clientContext := core.GetClientContext(ctx)
 	req := fasthttp.AcquireRequest()
-	defer fasthttp.ReleaseRequest(req)
 	req.Header.SetMethod("POST")
 	req.SetRequestURI(clientContext.URL.String())
 	req.SetBody(request)
@@ -78,12 +77,34 @@ func (trans *Transport) Transport(ctx context.Context, request []byte) (response
 		trans.loadCookie(req, clientContext.URL)
 	}
 	resp := fasthttp.AcquireResponse()
-	defer fasthttp.ReleaseResponse(resp)
-	if deadline, ok := ctx.Deadline(); ok {
-		err = trans.FastHTTPClient.DoDeadline(req, resp, deadline)
-	} else {
-		err = trans.FastHTTPClient.Do(req, resp)
+	// fasthttp knows deadlines, not contexts: the exchange runs beside the call, which also
+	// ends when its context does (a cancellation, Client.Abort) - the exchange is then left
+	// to finish on its own and gives the request and the response back itself
+	done := make(chan error, 1)
+	go func() {
+		defer func() {
+			if e := recover(); e != nil {
+				done <- core.NewPanicError(e)
+			}
+		}()
+		if deadline, ok := ctx.Deadline(); ok {
+			done <- trans.FastHTTPClient.DoDeadline(req, resp, deadline)
+		} else {
+			done <- trans.FastHTTPClient.Do(req, resp)
+		}
+	}()
+	select {
+	case err = <-done:
+	case <-ctx.Done():
+		go func() {
+			<-done
+			fasthttp.ReleaseRequest(req)
+			fasthttp.ReleaseResponse(resp)
+		}()
+		return nil, ctx.Err()
 	}
+	defer fasthttp.ReleaseRequest(req)
+	defer fasthttp.ReleaseResponse(resp)
 	if err != nil {
 		return nil, err
 	}
